@@ -53,6 +53,11 @@ structure Input where
                            -- (concretisation only: must not matter)
   plugin : Bool            -- the signature names an installed verification plugin that owns the identity check
                            -- and approves (concretisation only: the payload is checked all the same)
+  blobLen : Nat            -- blob: the number of bytes the reader delivers before io.EOF. `artifact` is the descriptor
+                           -- of ALL of them (the harness hashes the whole stream by its own route), so the decision
+                           -- does not depend on the length (theorem `blob_length_irrelevant`); 0 for oci
+  boundary : Nat           -- blob: the size cap (a constant read from the source tree, or a customary buffer / limit
+                           -- size) next to which `blobLen` was chosen; 0 = none (concretisation only: must not matter)
   deriving Repr, FromJson, ToJson
 
 structure Obs where
@@ -147,6 +152,12 @@ def clauses (i : Input) (o : Obs) : Clauses :=
       !(acc && i.kind == .blob) || match o.returned, i.decoded with
         | some r, some p => r.digest == p.digest && r.size == p.size && r.mediaType == p.mediaType
         | _, _ => false),
+    -- the same binding said for the stream: when the descriptor under verification counts every byte the
+    -- reader delivers (which is what the harness presents), the signed size is the length of the stream
+    ("blob_accepted_only_if_every_delivered_byte_is_signed",
+      !(acc && i.kind == .blob && i.artifact.size == Int.ofNat i.blobLen) || match i.decoded with
+        | some p => p.size == Int.ofNat i.blobLen
+        | none => false),
     ("registry_accepted_only_if_reference_resolves",
       !(acc && registry i) || i.resolveOk),
     ("registry_returns_the_verified_descriptor",
